@@ -14,12 +14,13 @@
 #ifndef TL
 #    define TL 8
 #endif
+static bool env_failed; /* some libc / timestamp stub reported failure: only then may the formatter fail */
 #ifndef VERIF_NATIVE
 static uint8_t msgch(void) { uint8_t c = nd_u8(); ASSUME(c != 0 && c != '\n'); return c; }
 static int fmt_model(char *buf, size_t size) {
     int r = nd_int();
     ASSUME(r >= -1 && r <= TL + 3);
-    if (r < 0) return r;
+    if (r < 0) { env_failed = true; return r; }
     if (size > 0) {
         size_t n = (size_t)r < size - 1 ? (size_t)r : size - 1;
         for (size_t i = 0; i < TL + 3; ++i) if (i < n) buf[i] = (char)msgch();
@@ -48,7 +49,7 @@ int aws_date_time_to_utc_time_str(const struct aws_date_time *dt, enum aws_date_
     (void)dt; (void)f;
     size_t n = nd_size();
     ASSUME(n <= TL);
-    if (n > out->capacity - out->len) return aws_raise_error(AWS_ERROR_SHORT_BUFFER);
+    if (n > out->capacity - out->len) { env_failed = true; return aws_raise_error(AWS_ERROR_SHORT_BUFFER); }
     for (size_t i = 0; i < TL; ++i) if (i < n) out->buffer[out->len + i] = '0';
     out->len += n;
     return AWS_OP_SUCCESS;
@@ -86,6 +87,7 @@ void h_format_line(void) {
         if (d.amount_written + 2 <= TL && d.amount_written > 3) WITNESS("log line shorter than the buffer");
     } else {
         /* (the formatter may fail without raising an error code when libc's snprintf itself fails; C14 does not speak about that) */
+        ASSERT(env_failed, "log line: a line that merely does not fit is cut, not dropped (the formatter fails only if libc / the timestamp fails)");
         WITNESS("formatting failed");
     }
 }
